@@ -274,6 +274,12 @@ pub proof fn lemma_lower_seq_idem(s: Seq<char>)
     }
 }
 
+// A-validated per char (exhaustive over all scalar values): lower-casing never yields the empty string
+#[verifier::external_body]
+pub proof fn axiom_lower_nonempty(c: char)
+    ensures u_to_lower(c).len() > 0
+{ }
+
 // ---- unit T.PurlField  <= purl/src/parse.rs:112 ----
 #[derive(Debug, Clone, Copy)]
 pub enum PurlField {
@@ -782,10 +788,7 @@ fn finish(&mut self, parts: &mut PurlParts) -> (r: Result<(), Self::Error>)
 // ---- property lemmas ----
 // ---- C10: the pypi rule is a projection (pypi_norm(pypi_norm(s)) == pypi_norm(s)) ----
 // A-validated per char (exhaustive over all scalar values):
-#[verifier::external_body]
-pub proof fn axiom_lower_nonempty(c: char)
-    ensures u_to_lower(c).len() > 0
-{ }
+// (axiom_lower_nonempty: see base.rs)
 #[verifier::external_body]
 pub proof fn axiom_lower_no_dash(c: char)
     requires !dash(c)
